@@ -19,20 +19,18 @@ open GooseVerif.Model GooseVerif.Gen
 
 /-- T-gen obligation: the functions this property is about have exactly these bodies now. -/
 theorem bodies_ok :
-    (Prim.machineBodies.filter (fun p => p.1 ∈ ["UInt64ToString", "Assume", "Assert", "MapClear", "WaitTimeout"])) =
+    Prim.primBodies =
     [("UInt64ToString", "func (x uint64) string { return ‹fmt›.Sprintf(\"%d\", x) }"),
      ("Assume", "func (c bool) { if !c { panic(\"Assume condition violated\") } }"),
      ("Assert", "func (c bool) { if !c { panic(\"Assert condition violated\") } }"),
      ("MapClear", "func [M ~map[K]V, K comparable, V any](m M) { for k := range m { delete(m, k) } }"),
-     ("WaitTimeout", "func (cond *‹sync›.Cond, timeoutMs uint64) { ‹github.com/goose-lang/primitive›.WaitTimeout(cond, timeoutMs) }")] := by
-  decide +kernel
+     ("WaitTimeout", "func (cond *‹sync›.Cond, timeoutMs uint64) { ‹github.com/goose-lang/primitive›.WaitTimeout(cond, timeoutMs) }")] := rfl
 
 /-- T-gen obligation: the protocol that `Model/WaitTimeout.lean` models is the body of
 primitive.WaitTimeout in the module version /repo's go.mod selects. -/
 theorem primitive_waittimeout_ok :
     Prim.primitiveWaitTimeout =
-    "func (cond *‹sync›.Cond, timeoutMs uint64) { done := make(chan struct{}) go func() { cond.Wait() cond.L.Unlock() close(done) }() select { case <-‹time›.After(‹time›.Duration(timeoutMs) * ‹time›.Millisecond): cond.L.Lock() return case <-done: cond.L.Lock() return } }" := by
-  decide +kernel
+    "func (cond *‹sync›.Cond, timeoutMs uint64) { done := make(chan struct{}) go func() { cond.Wait() cond.L.Unlock() close(done) }() select { case <-‹time›.After(‹time›.Duration(timeoutMs) * ‹time›.Millisecond): cond.L.Lock() return case <-done: cond.L.Lock() return } }" := rfl
 
 /-! ### UInt64ToString: canonical decimal rendering (proved for every natural number, hence every uint64) -/
 
